@@ -228,4 +228,16 @@ theorem C19_gensalt_accepted_every_config (en : Method → Bool) (dflt : Option 
   · exact hpre
   · exact (List.take_prefix 2 S).trans hpre
 
+/-- **C01, second clause, in every configuration**: in each of the 65 536 tables a successful result is `S ++ dig`, and any text of
+    the same length over `./0-9A-Za-z` in place of `dig` gives the same result -/
+theorem C19_hashpart_every_config (en : Method → Bool) (dflt : Option Bytes) (d : Bool) (D : Digests) (hD : D.WF) (p s H : Bytes)
+    (h : cryptPure { table := mkTable Gen.hashesConf en, dflt := dflt, descryptOn := d } D p s = .ok H) :
+    ∃ S dig, H = S ++ dig ∧ ∀ t, t.length = dig.length → HashText t →
+      cryptPure { table := mkTable Gen.hashesConf en, dflt := dflt, descryptOn := d } D p (S ++ t) = .ok H := by
+  obtain ⟨hlt, heq⟩ := subsetOf_encode en
+  have hen : subsetOf (encode en) = en := funext heq
+  have hT := C19_tableOk (encode en) hlt
+  rw [hen] at hT
+  exact C01.C01_hashpart_api _ hT D hD p s H h
+
 end Xc.C19
